@@ -62,6 +62,7 @@ def perturbations(src):
     ps.append(("__len__ removed (dict's own, lock-free)", lambda s: re.sub(r"    def __len__\(self\):\n        with self\._lock:\n            return super\(\)\.__len__\(\)\n", "", s)))
     ps.append(("class patched after definition", lambda s: s + "\nLRI.__setitem__ = dict.__setitem__\n"))
     ps.append(("lambda touching self inside a method", lambda s: s.replace("            super().clear()\n", "            f = lambda: self._anchor\n            super().clear()\n")))
+    ps.append(("lazy generator over the link table returned from inside the lock", lambda s: s.replace("            super().clear()\n", "            g = (self._link_lookup[k] for k in ())\n            super().clear()\n")))
     ps.append(("dict write moved out of the with-block", lambda s: s.replace("                link[VALUE] = value\n            super().__setitem__(key, value)\n", "                link[VALUE] = value\n        super().__setitem__(key, value)\n")))
     return ps
 
